@@ -346,9 +346,14 @@ func (e *Executor) execute(ctx context.Context, isRootPlan bool, p *Plan, keys [
 		}
 		optionalRespMetadata = append(optionalRespMetadata, optionalRespQueryMetaData)
 	} else {
-		res = []interface{}{
-			map[string]interface{}{},
+		// The coordinator itself serves nothing but __typename on the root object.
+		root := map[string]interface{}{}
+		for _, selection := range p.SelectionSet.Selections {
+			if selection.Name == "__typename" {
+				root[selection.Alias] = p.Type
+			}
 		}
+		res = []interface{}{root}
 	}
 
 	g, ctx := errgroup.WithContext(ctx)
